@@ -114,3 +114,32 @@ CLAIMED["C08"] = dict(
   note=("Trusted: as C01. Partial: parsing for all names is validated, not proved. Known findings: title-family patterns on digit-initial words, vowel-less "
         "patterns on names with digits (both pinned by the tests)."),
   design="§6 C08")
+
+CLAIMED["C05"] = dict(
+  technique="Lean 4 proof: order independence of the priority loop for every formatter class (permutation invariance of association-list lookups); repeated-directive rejection for every class; kernel-evaluated cross-check instances",
+  text=("Theorems: C05_order - for EVERY formatter class, both modes and every permutation of captures with distinct, suffix-free names the constructor builds "
+        "the same object or raises the same error (the loop walks the class's own priorities table and looks captures up by name; __validate_format is the "
+        "identity on such captures); C05_repeated_directive - for every class, a directive repeated with two different texts is rejected with "
+        "FormatterValueError in both modes, whatever the texts; kernel-evaluated instances of the strict cross-checks (month number vs name, day-of-year vs "
+        "month/day, 24h vs 12h+AM/PM, decimal vs binary vs grouped serial) and of the checks that hold in non-strict mode too (lone weekday, AM/PM, bits vs "
+        "bytes, initials/flat/vowel-less vs name). 'Strict succeeds exactly when all statements agree, and then non-strict agrees' over all values and "
+        "perturbations is decided by the sweep with an independent statement semantics (brute force over the days of the stated year)."),
+  note=("Trusted: as C01 plus the statement semantics in harness/props/C05.py. Partial: soundness/completeness of the cross-checks for all values is validated, "
+        "not proved. Known findings: %j ignored after %d in non-strict mode, two week counts, a week number that does not exist in the year, Tue/Thu names, "
+        "%-H, a zero Storage statement."),
+  design="§6 C05")
+
+CLAIMED["C06"] = dict(
+  technique="Lean 4 proof: anchored-search theorem for every pattern body and every input (induction over the matcher); exception-wrapping mechanism; kernel-evaluated named impossible values",
+  text=("Theorems: C06_anchored - for EVERY pattern body and EVERY subject string, a successful search of a pattern of the shape ^...\\\\Z starts at the first "
+        "character and leaves nothing unread; C06_whole_string lifts it to parse of every formatter class, input, format and mode whose compiled pattern is "
+        "anchored; C06_anchors pins the anchors really used by the classic engine, groups and the asset engine to ^ and \\\\Z on the regenerated tables "
+        "(with $ the theorem is false - kernel-checked counterexample '12\\\\n', the defect repaired in /repo); C06_shape_base checks the compiled base "
+        "pattern of every class is anchored; C06_wrap - nothing of Python's ValueError/ArithmeticError family leaves parse, it becomes "
+        "FormatterValueError; C06_named evaluates the impossible values the property names (30 February, hour 25, minute 61, day 39, year 0000, week 59, "
+        "empty numbers, malformed sizes, zero-padded version, contradictory month) in both modes. That no other foreign exception kind can arise from any "
+        "string in the pattern language of any directive sequence is decided by the sweep (strings sampled from CPython's own parse tree of the generated "
+        "pattern, extensions incl. newline, edits; formatters, constants, groups) and by the correspondence, which compares error kinds."),
+  note=("Trusted: as C01 plus harness/regex_lang.py sampler. Partial: the exhaustive case analysis of every converter on its whole pattern language is validated, "
+        "not proved."),
+  design="§6 C06")
